@@ -2,7 +2,7 @@
    Exact arithmetic (Qc); the time decay enters as any homomorphism of elapsed time
    (decay 0 = 1, decay (a+b) = decay a * decay b), of which 2^(-dt/halflife) is one. *)
 From Coq Require Import List ZArith Bool QArith Qcanon.
-From GL Require Import Lib.Arr Lib.Keyed Model.Dom Model.Ema Proofs.RowGeneric Proofs.EmaClosed Proofs.EmaMask Proofs.EmaTimedMask Proofs.NullKeys Proofs.GenTie Gen.TablesGen.
+From GL Require Import Lib.Arr Lib.Keyed Model.Dom Model.Ema Proofs.RowGeneric Proofs.EmaClosed Proofs.EmaMask Proofs.EmaTimedMask Proofs.NullKeys Proofs.TieEma Gen.TablesGen.
 Import ListNotations.
 Open Scope Z_scope.
 
